@@ -1336,6 +1336,12 @@ class TLSConnection(TLSRecordLayer):
                         AlertDescription.illegal_parameter,
                         "Server selected PSK identity we did not offer"):
                     yield result
+            if not sr_kex and "psk_ke" not in settings.psk_modes:
+                for result in self._sendError(
+                        AlertDescription.illegal_parameter,
+                        "Server selected PSK-only key exchange we did not "
+                        "offer"):
+                    yield result
             ident = clPSK.identities[sr_psk.selected]
             psk = [i[1] for i in settings.pskConfigs if i[0] == ident.identity]
             if psk:
